@@ -130,6 +130,18 @@ def r3(rr, repo):
     za = anchors(repo)
     ff = [e for p in za.paths('poll') for e in p.events if e.kind == 'store' and e.term == 'self.min_send_id']
     rr.ob('publisher side: a fast-forward store of min_send_id is reachable in poll_recv', bool(ff), za.mod, za.S_poll, key='adopt-pub')
+    # whenever the publisher abandons the frame in hand because a consumer asked for a newer id, it has adopted that id: abandoning without moving on repeats forever
+    # (a restarted publisher starts at the initial id while its consumers are far ahead - that is exactly the case that must fast-forward)
+    k = 0
+    for p in za.paths('poll'):
+        o = p.outcome
+        if o is None or o[0] != 'return' or not (o[1] is None or (isinstance(o[1], ast.Constant) and o[1].value is None)):
+            continue
+        k += 1
+        st = [e for e in p.events if e.kind == 'store' and e.term == 'self.min_send_id']
+        rr.ob('every "abandon this frame" answer of poll_recv (None) comes with the fast-forward of min_send_id past the id the consumer already has - also at the initial id, i.e. right after a restart',
+              bool(st), za.mod, za.S_poll, witness=p.pc_text()[-200:], key='abandon-adopts')
+    rr.floor('abandoning paths of poll_recv', k, 1, za.mod, za.S_poll)
     paths, _ = pm_paths(za)
     newer = [p for p in paths if q.order(p, za.r_mid, za.pm_exp) == '>']
     ok = bool(newer) and all(ret_const(p)[2] is not None for p in newer)
